@@ -130,6 +130,25 @@ CHECKS = {
              "new or changed files, and xrun == xcmp+hexsim (stdout and status = exit value & 0xFF) are checked.",
         note="Acceptance ground truth from the in-process library call on the same bytes. I/O faults are outside the property.",
         ref="4/C14"),
+    "C12": dict(
+        technique="runtime monitoring: differential runs of hexsim under perturbed host state (dirty stack shim, dirty backing store, environment, ASLR), lock-step against a zero-memory reference, valgrind memcheck",
+        engine="procmon",
+        text="Exploration: images that read words they never wrote (unset variables, unwritten arrays, loads beyond the image), "
+             "well-defined generated programs and infinite loops cut by --max-cycles are run (a) as the hexsim executable under 6-8 host "
+             "states incl. an LD_PRELOAD shim that fills 6 MiB of stack with seeded patterns before main, (b) in-process with the Processor "
+             "placement-constructed in storage filled with 0x00/0xFF/0xA5/PRNG bytes in lock-step with the reference model (zero memory), "
+             "with tracing on and off, (c) under memcheck. Output, exit status, input position and system calls must be identical.",
+        note="A run that observes no read-before-write is inconclusive. Host states are sampled.",
+        ref="4/C12"),
+    "C11": dict(
+        technique="runtime monitoring: byte comparison of binaries and listings across perturbed host states (MALLOC_PERTURB_, dirty-heap LD_PRELOAD shim, environment, ASLR, compilation history) plus valgrind memcheck",
+        engine="procmon",
+        text="Exploration: generated, shipped and 'accepted but unusual' X and assembly sources are compiled by the xcmp/hexasm "
+             "executables under 12-16 host states for every output action (binary, -S, --tree, --tree-opt, --insts*, --instrs, --tokens) "
+             "and must be byte-identical; in-process the same source is compiled first, third and fiftieth in a process; memcheck reports "
+             "any dependence on uninitialised memory directly.",
+        note="Host states are a sample; memcheck narrows the gap.",
+        ref="4/C11"),
 }
 
 PENDING_REASON = "no check registered yet in this revision of /verif (machinery for it is still being built; see DESIGN.md section 4)"
@@ -166,7 +185,7 @@ def main():
              "kind_free_text": "reference parser and definitional interpreter for X with event log and well-definedness monitor; lib/xgen.py generators; harness/h_x.cpp compile+lock-step runner"},
             {"name": "rtl-lockstep", "path": "harness/h_rtl.cpp", "serves_properties": ["C03", "C06", "C13", "C16"],
              "kind_free_text": "Verilated models built by the check from the working tree, stepped in lock-step; state access by name"},
-            {"name": "procmon", "path": "checks/c14.py", "serves_properties": ["C14"],
+            {"name": "procmon", "path": "checks/c14.py", "serves_properties": ["C11", "C12", "C14"],
              "kind_free_text": "runs shipped executables in scratch directories, snapshots files, compares with in-process results"},
             {"name": "buildcache", "path": "lib/common.py", "serves_properties": sorted(CHECKS),
              "kind_free_text": "content-hash build cache, fork-per-case runner, verdict/evidence/known-finding plumbing"},
